@@ -214,6 +214,7 @@ pub struct Gen {
     vctr: u32,
     last_step: Option<J>,
     long_bytes: Vec<u32>,
+    later_restore: Option<String>,
 }
 
 impl Gen {
@@ -242,6 +243,7 @@ impl Gen {
             vctr: 0,
             last_step: None,
             long_bytes: cx.long_keys("bytes"),
+            later_restore: None,
         }
     }
 
@@ -365,6 +367,10 @@ impl Gen {
             }
             49..=60 => json!({"e": "rem", "n": n, "k": k}),
             61..=64 => json!({"e": "pop", "n": n, "last": rng.random_range(0..2) == 0}),
+            65..=67 if rng.random_range(0..4) == 0 => {
+                // empty the table (nothing satisfies the predicate)
+                json!({"e": "retain", "n": n, "lo": {"t": "u"}, "hi": {"t": "u"}, "p": {"m": 1_000_003, "r": 1_000_002}})
+            }
             65..=67 => {
                 let whole = rng.random_range(0..2) == 0;
                 let (lo, hi) = if whole { (json!({"t": "u"}), json!({"t": "u"})) } else { (self.bound(rng, &n), self.bound(rng, &n)) };
@@ -437,6 +443,14 @@ impl Gen {
     }
 
     fn begin_write(&mut self, rng: &mut StdRng) {
+        if let Some(s) = self.later_restore.take()
+            && self.sps.contains(&s)
+        {
+            self.queue.push_back(json!({"e": "bw"}));
+            self.queue.push_back(json!({"e": "spreste", "s": s}));
+            self.queue.push_back(json!({"e": if rng.random_range(0..2) == 0 { "commit" } else { "abort" }}));
+            return;
+        }
         if rng.random_range(0..100) < self.p.w_idle_nd && self.readers.len() < 4 {
             // a commit that changes nothing, and a reader that begins right after it
             self.queue.push_back(json!({"e": "bw"}));
@@ -470,7 +484,7 @@ impl Gen {
 
     fn next_inner(&mut self, rng: &mut StdRng) -> J {
         loop {
-            if let Some(s) = self.queue.pop_front() {
+            if let Some(s) = self.pop_queue() {
                 return s;
             }
             if self.wtx {
@@ -516,7 +530,17 @@ impl Gen {
                             return json!({"e": "spdel", "id": id});
                         }
                         5..=6 if !self.sps.is_empty() && self.open.is_empty() => {
-                            let s = self.sps[rng.random_range(0..self.sps.len())].clone();
+                            let i = rng.random_range(0..self.sps.len());
+                            let s = self.sps[i].clone();
+                            if i > 0 && rng.random_range(0..3) == 0 {
+                                // restore a newer savepoint, then an older one, in the same transaction
+                                let older = self.sps[rng.random_range(0..i)].clone();
+                                self.queue.push_back(json!({"e": "spreste", "s": older}));
+                            }
+                            if i + 1 < self.sps.len() && rng.random_range(0..2) == 0 {
+                                // after this transaction: try a savepoint created after the restored one
+                                self.later_restore = Some(self.sps[rng.random_range(i + 1..self.sps.len())].clone());
+                            }
                             return json!({"e": "spreste", "s": s});
                         }
                         7 if !self.psp.is_empty() && self.open.is_empty() => {
@@ -525,6 +549,29 @@ impl Gen {
                         }
                         8 => return json!({"e": "dur", "d": if rng.random_range(0..2) == 0 { "none" } else { "imm" }}),
                         _ => continue,
+                    }
+                }
+                if x < self.p.w_savepoint + self.p.w_catalog && rng.random_range(0..6) == 0 && self.open.is_empty() {
+                    // empty / refill a committed table, drop the handle, rename it, look at it under the new name
+                    let normal: Vec<(String, Ty)> = self.known.iter().filter(|(_, t)| t.0 == "t").map(|(n, t)| (n.clone(), t.clone())).collect();
+                    if let Some((n, ty)) = normal.first().cloned() {
+                        let m = self.name(rng);
+                        self.queue.push_back(json!({"e": "open", "n": n, "kind": "t", "kt": ty.1, "vt": ty.2}));
+                        match rng.random_range(0..3) {
+                            0 => self.queue.push_back(json!({"e": "retain", "n": n, "lo": {"t": "u"}, "hi": {"t": "u"}, "p": {"m": 1_000_003, "r": 1_000_002}})),
+                            1 => self.queue.push_back(json!({"e": "pop", "n": n, "last": false})),
+                            _ => {
+                                let v = self.value(rng, &ty.2);
+                                self.queue.push_back(json!({"e": "ins", "n": n, "k": self.key(rng, &n), "v": v}));
+                            }
+                        }
+                        self.queue.push_back(json!({"e": "close", "n": n}));
+                        self.queue.push_back(json!({"e": "rename", "a": n, "b": m, "kind": "t"}));
+                        self.queue.push_back(json!({"e": "open", "n": m, "kind": "t", "kt": ty.1, "vt": ty.2}));
+                        self.queue.push_back(json!({"e": "len", "src": "w", "n": m}));
+                        self.queue.push_back(json!({"e": "range", "src": "w", "n": m, "lo": {"t": "u"}, "hi": {"t": "u"}, "cnt": 1000, "rev": false, "alt": false}));
+                        self.queue.push_back(json!({"e": "close", "n": m}));
+                        continue;
                     }
                 }
                 if x < self.p.w_savepoint + self.p.w_catalog {
@@ -786,7 +833,25 @@ impl Gen {
 
     /// Next already-queued step, if any (used to drain before finishing)
     pub fn drain_one(&mut self) -> Option<J> {
-        self.queue.pop_front()
+        self.pop_queue()
+    }
+
+    // queued steps were planned ahead: drop those whose handle did not materialise
+    fn pop_queue(&mut self) -> Option<J> {
+        while let Some(s) = self.queue.pop_front() {
+            let e = s["e"].as_str().unwrap_or("");
+            let n = s["n"].as_str().unwrap_or("");
+            let needs_open = matches!(e, "close" | "ins" | "insr" | "getmut" | "entry" | "rem" | "pop" | "retain" | "extract" | "mins" | "mrem" | "mremall")
+                || (matches!(e, "get" | "len" | "edge" | "range" | "mget" | "mrange") && s["src"] == "w");
+            if needs_open && !self.open.contains_key(n) {
+                continue;
+            }
+            if e == "open" && self.open.contains_key(n) {
+                continue;
+            }
+            return Some(s);
+        }
+        None
     }
 
     /// Steps that bring the run to a quiescent end: close and commit, drop every handle, reopen
